@@ -12,6 +12,7 @@
       (case, post-state, result).  They are checked by TLC (a) on SyncFn's own result for every generated case
       and (b) on RECORDED REAL EXECUTIONS (MODE = "file"), which is where verdicts about the code come from.
    3. Generators: MODE = "gen"   every initial state is one case (src, dst, options)
+                  MODE = "cligen" / "clifile"  the same two for the command line front end `signac sync` (section 1d)
                   MODE = "file"  every initial state is one recorded real sync (trace validation, SyncTrace)
                   MODE = "steps" per-job steps as separate actions, all orders explored (model of `parallel`). *)
 EXTENDS Naturals, Sequences, FiniteSets, TLC, Json, IOUtils, Randomization, SequencesExt, Functions, FiniteSetsExt
@@ -27,7 +28,9 @@ CONSTANTS MODE,     \* "gen" | "file" | "steps"
           ProjDeepDropped,        \* DEVIATION D4: sync_projects does not forward deep= to sync_jobs
           CopytreeIgnoresExclude, \* DEVIATION D5: exclude is not applied inside copytree (cloned jobs, left-only sub-directories)
           DircmpIgnoreList,       \* DEVIATION D6: filecmp.dircmp default ignore list hides RCS CVS tags .git ... on both sides
-          DryJobNeedsDstDir       \* DEVIATION D7: job-level dry_run on an uninitialised destination job: dircmp -> FileNotFoundError
+          DryJobNeedsDstDir,      \* DEVIATION D7: job-level dry_run on an uninitialised destination job: dircmp -> FileNotFoundError
+          CloneExcludeHitsSpecial,\* DEVIATION D8: the exclude patterns given to copytree at clone time also hit the state point / document file
+          CliFilterOnCwd          \* DEVIATION D9: `signac sync -f <filter>` evaluates the filter on the project of the working directory
 
 NOW   == 9                                     \* mtime of everything written by the sync (larger than all model times)
 DOCFN == "signac_job_document.json"
@@ -76,58 +79,69 @@ Blocked(dir, p) == IF Len(p) = 1 THEN p[1] \in DOMAIN dir.d
 (* 1a. files, as the code: _sync_job_workspaces + _FileModifyProxy *)
 \* filecmp.cmp: shallow => equal (type, size, mtime) is "same"; otherwise by size then content.  deep => content.
 Same(a, b, deep) == IF deep THEN a.data = b.data ELSE (a.size = b.size /\ a.mtime = b.mtime) \/ a.data = b.data
+\* optional fields of the option record (only the command line front end sets them)
+Opt(o, f, default) == IF f \in DOMAIN o THEN o[f] ELSE default
+\* --size-only replaces filecmp's signature by (type, size): equal size => "identical" without looking at content or time
+SameO(a, b, deep, o) == IF ~deep /\ Opt(o, "sizeOnly", FALSE) THEN a.size = b.size ELSE Same(a, b, deep)
+ExSp(o)  == o.exclude.on /\ Opt(o.exclude, "sp", FALSE)      \* the exclude pattern also matches 'signac_statepoint.json'
+ExDoc(o) == o.exclude.on /\ Opt(o.exclude, "doc", FALSE)     \* ... 'signac_job_document.json'
 UserExcl(n, o) == o.exclude.on /\ n \in o.exclude.names     \* re.match on the NAME inside the current directory
 \* R-prefix (calibrated): sync_jobs always appends the state point and (unless COPY) the document file NAME to the patterns, and
 \* re.match is a prefix match - so a roll-back copy 'signac_job_document.json~' is excluded from the file walk too (not from a clone)
 Excl(n, o) == UserExcl(n, o) \/ (o.docSync # "copy" /\ n = BAKFN)
 Ign(n)     == DircmpIgnoreList /\ n \in IgnoreNames           \* DEVIATION D6
 TreeExcl(n, o) == ~CopytreeIgnoresExclude /\ UserExcl(n, o)       \* DEVIATION D5 (fixed: copytree(ignore=...) by name)
-CopyFile(a) == [a EXCEPT !.mtime = NOW]                        \* shutil.copy: content + mode, fresh mtime
+CopyFile(a, o) == IF Opt(o, "times", FALSE) THEN a ELSE [a EXCEPT !.mtime = NOW]   \* shutil.copy: fresh mtime; copy2 (-p -t): preserved
 Verdict(sf, df, p, o) == CASE o.strategy = "always" -> TRUE
                            [] o.strategy = "never"  -> FALSE
                            [] o.strategy = "update" -> sf.mtime > df.mtime          \* FileSync.update
                            [] o.strategy = "custom" -> p \in o.custom
                            [] OTHER -> FALSE
+SumSet2(S, f(_)) == FoldSet(LAMBDA e, acc : acc + f(e), 0, S)
 RECURSIVE CopyTree(_, _)
-CopyTree(S, o) == [f |-> [n \in {n \in DOMAIN S.f : ~TreeExcl(n, o)} |-> CopyFile(S.f[n])],
+CopyTree(S, o) == [f |-> [n \in {n \in DOMAIN S.f : ~TreeExcl(n, o)} |-> CopyFile(S.f[n], o)],
                    d |-> [n \in {n \in DOMAIN S.d : ~TreeExcl(n, o)} |-> CopyTree(S.d[n], o)]]
 RECURSIVE Skeleton(_, _)
 Skeleton(S, o) == [f |-> <<>>, d |-> [n \in {n \in DOMAIN S.d : ~TreeExcl(n, o)} |-> Skeleton(S.d[n], o)]]
+RECURSIVE NFiles(_, _)
+NFiles(S, o) == Cardinality({n \in DOMAIN S.f : ~TreeExcl(n, o)}) + SumSet2({n \in DOMAIN S.d : ~TreeExcl(n, o)}, LAMBDA n : NFiles(S.d[n], o))
 RECURSIVE HasAnyFile(_, _)
 HasAnyFile(S, o) == (\E n \in DOMAIN S.f : ~TreeExcl(n, o)) \/ (\E n \in DOMAIN S.d : ~TreeExcl(n, o) /\ HasAnyFile(S.d[n], o))
 
 RECURSIVE Walk(_, _, _, _, _), WalkSubs(_, _, _, _, _, _)
-\* one directory level; returns [dir, res, fn, cons]  (cons = paths the strategy was consulted for)
+\* one directory level; returns [dir, res, fn, cons, n]  (cons = paths the strategy was consulted for, n = calls of proxy.copy)
 Walk(S, D, o, deep, pfx) ==
   LET dn   == (DOMAIN D.f) \cup (DOMAIN D.d)
       dry  == o.dryRun
       loF  == {n \in DOMAIN S.f : ~Ign(n) /\ n \notin dn /\ ~Excl(n, o)}
       loD  == {n \in DOMAIN S.d : ~Ign(n) /\ n \notin dn /\ ~Excl(n, o) /\ o.recursive}
-      diff == {n \in (DOMAIN S.f) \cap (DOMAIN D.f) : ~Ign(n) /\ ~Excl(n, o) /\ ~Same(S.f[n], D.f[n], deep)}
+      diff == {n \in (DOMAIN S.f) \cap (DOMAIN D.f) : ~Ign(n) /\ ~Excl(n, o) /\ ~SameO(S.f[n], D.f[n], deep, o)}
       subs == SortBy({n \in (DOMAIN S.d) \cap (DOMAIN D.d) : ~Ign(n)}, o.nord)    \* no exclude test here (as the code)
       \* the left_only loop handles files AND directories, i.e. directories arrive before differing files are looked at
       loCopies == loF # {} \/ \E n \in loD : HasAnyFile(S.d[n], o)
-      D1 == IF ~dry THEN [f |-> Over([n \in loF |-> CopyFile(S.f[n])], D.f), d |-> Over([n \in loD |-> CopyTree(S.d[n], o)], D.d)]
+      D1 == IF ~dry THEN [f |-> Over([n \in loF |-> CopyFile(S.f[n], o)], D.f), d |-> Over([n \in loD |-> CopyTree(S.d[n], o)], D.d)]
             ELSE IF DryCopytreeMkdirs THEN [D EXCEPT !.d = Over([n \in loD |-> Skeleton(S.d[n], o)], D.d)]
             ELSE D
       over == {n \in diff : Verdict(S.f[n], D.f[n], pfx \o <<n>>, o)}
       cons == IF o.strategy = "none" THEN {} ELSE {pfx \o <<n>> : n \in diff}
-      D2 == IF dry THEN D1 ELSE [D1 EXCEPT !.f = Over([n \in over |-> CopyFile(S.f[n])], D1.f)]
-  IN IF dry /\ DryCopyRaises /\ loCopies THEN [dir |-> D1, res |-> "TypeError", fn |-> "", cons |-> {}]
-     ELSE IF diff # {} /\ o.strategy = "none" THEN [dir |-> D1, res |-> "FileSyncConflict", fn |-> FirstOf(diff, o.nord), cons |-> {}]
-     ELSE IF dry /\ DryCopyRaises /\ over # {} THEN [dir |-> D1, res |-> "TypeError", fn |-> "", cons |-> cons]
-     ELSE IF o.recursive THEN WalkSubs(subs, S, [dir |-> D2, res |-> "ok", fn |-> "", cons |-> cons], o, deep, pfx)
-     ELSE [dir |-> D2, res |-> "ok", fn |-> "", cons |-> cons]
+      D2 == IF dry THEN D1 ELSE [D1 EXCEPT !.f = Over([n \in over |-> CopyFile(S.f[n], o)], D1.f)]
+      n1 == Cardinality(loF) + SumSet2(loD, LAMBDA n : NFiles(S.d[n], o))
+      n2 == n1 + Cardinality(over)
+  IN IF dry /\ DryCopyRaises /\ loCopies THEN [dir |-> D1, res |-> "TypeError", fn |-> "", cons |-> {}, n |-> 0]
+     ELSE IF diff # {} /\ o.strategy = "none" THEN [dir |-> D1, res |-> "FileSyncConflict", fn |-> FirstOf(diff, o.nord), cons |-> {}, n |-> n1]
+     ELSE IF dry /\ DryCopyRaises /\ over # {} THEN [dir |-> D1, res |-> "TypeError", fn |-> "", cons |-> cons, n |-> n1]
+     ELSE IF o.recursive THEN WalkSubs(subs, S, [dir |-> D2, res |-> "ok", fn |-> "", cons |-> cons, n |-> n2], o, deep, pfx)
+     ELSE [dir |-> D2, res |-> "ok", fn |-> "", cons |-> cons, n |-> n2]
 WalkSubs(seq, S, acc, o, deep, pfx) ==
   IF seq = <<>> THEN acc
   ELSE LET n == Head(seq)
            w == Walk(S.d[n], acc.dir.d[n], o, deep, pfx \o <<n>>)
-           a2 == [dir |-> [acc.dir EXCEPT !.d[n] = w.dir], res |-> w.res, fn |-> w.fn, cons |-> acc.cons \cup w.cons]
+           a2 == [dir |-> [acc.dir EXCEPT !.d[n] = w.dir], res |-> w.res, fn |-> w.fn, cons |-> acc.cons \cup w.cons, n |-> acc.n + w.n]
        IN IF w.res # "ok" THEN a2 ELSE WalkSubs(Tail(seq), S, a2, o, deep, pfx)
 
 ---------------------------------------------------------------------------
 (* 1b. documents, as the code: DocSync.ByKey / DocSync.update under _DocProxy + create_doc_backup *)
-KeySel(name, o) == o.docSync \in {"bykeyfn", "bykeyre"} /\ name \in o.keysel     \* key_strategy(root + key)
+KeySel(name, o) == o.docSync = "bykeyall" \/ (o.docSync \in {"bykeyfn", "bykeyre"} /\ name \in o.keysel)     \* key_strategy(root + key)
 \* nested levels receive the LIVE sub-dict (DEVIATION D3), so only top-level writes are gated by dry_run
 NestedLive(o) == ~o.dryRun \/ DryNestedDocWrites
 RECURSIVE ByKey(_, _, _, _, _)
@@ -160,7 +174,7 @@ DocMerge(sd, dd, o, stale) ==
        IF r.terr THEN [doc |-> IF o.dryRun THEN Mp(r.m) ELSE dd, res |-> "TypeError", keys |-> {}]
        ELSE IF r.skipped # {} /\ o.docSync = "bykey"
             THEN [doc |-> IF o.dryRun THEN Mp(r.m) ELSE dd, res |-> "DocumentSyncConflict", keys |-> r.skipped]
-       ELSE [doc |-> Mp(r.m), res |-> "ok", keys |-> {}]
+       ELSE [doc |-> Mp(r.m), res |-> "ok", keys |-> r.skipped]       \* with a key strategy skipped keys are only reported
 
 \* canonical JSON text (json.dumps(sort_keys=True)) of a document: the content token and size of the document FILE under COPY
 RECURSIVE JoinStr(_, _)
@@ -174,12 +188,12 @@ WithDocFile(j, o) == IF j.dex THEN [j.dir EXCEPT !.f = Over((DOCFN :> DocFileRec
 
 ---------------------------------------------------------------------------
 (* 1c. one job: sync_jobs; one project: sync_projects *)
-\* returns [job, present, res, fn, keys, cons]
+\* returns [job, present, res, fn, keys, cons, n]   (keys: the conflicting keys of DocumentSyncConflict, or the keys skipped by a key strategy)
 JobStep(sj, dj0, exists, o, deep) ==
   LET copy == o.docSync = "copy" IN
   IF ~exists /\ o.dryRun
   THEN [job |-> NoJob, present |-> FALSE, res |-> IF DryJobNeedsDstDir THEN "FileNotFoundError" ELSE "ok",     \* DEVIATION D7
-        fn |-> "", keys |-> {}, cons |-> {}]
+        fn |-> "", keys |-> {}, cons |-> {}, n |-> 0]
   ELSE
   LET dj == IF exists THEN dj0 ELSE FreshJob                                         \* if not dry_run: dst.init()
       w  == Walk(IF copy THEN WithDocFile(sj, o) ELSE sj.dir, IF copy THEN WithDocFile(dj, o) ELSE dj.dir, o, deep, <<>>)
@@ -188,21 +202,26 @@ JobStep(sj, dj0, exists, o, deep) ==
             ELSE LET r == w.dir.f[DOCFN] IN
                  [sp |-> dj.sp, dir |-> [w.dir EXCEPT !.f = Without(w.dir.f, {DOCFN})],
                   doc |-> IF dj.dex /\ r.data = DocText(dj.doc, o.kord) THEN dj.doc ELSE sj.doc, dex |-> TRUE, dmt |-> r.mtime]
-  IN IF w.res # "ok" THEN [job |-> jf, present |-> TRUE, res |-> w.res, fn |-> w.fn, keys |-> {}, cons |-> w.cons]
-     ELSE IF o.docSync \in {"nosync", "copy"} THEN [job |-> jf, present |-> TRUE, res |-> "ok", fn |-> "", keys |-> {}, cons |-> w.cons]
+  IN IF w.res # "ok" THEN [job |-> jf, present |-> TRUE, res |-> w.res, fn |-> w.fn, keys |-> {}, cons |-> w.cons, n |-> w.n]
+     ELSE IF o.docSync \in {"nosync", "copy"} THEN [job |-> jf, present |-> TRUE, res |-> "ok", fn |-> "", keys |-> {}, cons |-> w.cons, n |-> w.n]
      ELSE LET m == DocMerge(sj.doc, dj.doc, o, BAKFN \in DOMAIN w.dir.f) IN     \* files first: a copied BAKFN counts
           [job |-> [jf EXCEPT !.doc = m.doc, !.dex = (dj.dex \/ m.doc # EmptyDoc)], present |-> TRUE,
-           res |-> m.res, fn |-> "", keys |-> m.keys, cons |-> w.cons]
+           res |-> m.res, fn |-> "", keys |-> m.keys, cons |-> w.cons, n |-> w.n]
 
 ProjDeep(o) == IF ProjDeepDropped THEN FALSE ELSE o.deep                               \* DEVIATION D4
 \* _clone_or_sync
 ProjStep(sj, dst, j, o) ==
   IF j \in DOMAIN dst.jobs THEN JobStep(sj, dst.jobs[j], TRUE, o, ProjDeep(o))
-  ELSE IF ~o.dryRun
-       THEN [job |-> [sp |-> TRUE, dir |-> CopyTree(sj.dir, o), doc |-> sj.doc, dex |-> sj.dex, dmt |-> IF sj.dex THEN NOW ELSE 0],
-             present |-> TRUE, res |-> "ok", fn |-> "", keys |-> {}, cons |-> {}]
-  ELSE [job |-> [NoJob EXCEPT !.dir = Skeleton(sj.dir, o)], present |-> DryCopytreeMkdirs,    \* DEVIATION D2: makedirs for real
-        res |-> IF DryCopyRaises THEN "TypeError" ELSE "ok", fn |-> "", keys |-> {}, cons |-> {}]  \* the state point file is always copied
+  ELSE LET hit == ~CopytreeIgnoresExclude /\ CloneExcludeHitsSpecial           \* DEVIATION D8: the ignore callable of the clone
+           nosp == hit /\ ExSp(o)   nodoc == hit /\ ExDoc(o)                   \* sees every name of the job directory
+           ncopy == NFiles(sj.dir, o) + (IF nosp THEN 0 ELSE 1) + (IF sj.dex /\ ~nodoc THEN 1 ELSE 0)
+       IN IF ~o.dryRun
+          THEN [job |-> [sp |-> ~nosp, dir |-> CopyTree(sj.dir, o), doc |-> IF nodoc THEN EmptyDoc ELSE sj.doc,
+                         dex |-> sj.dex /\ ~nodoc, dmt |-> IF sj.dex /\ ~nodoc THEN NOW ELSE 0],
+                present |-> TRUE, res |-> "ok", fn |-> "", keys |-> {}, cons |-> {}, n |-> ncopy]
+          ELSE [job |-> [NoJob EXCEPT !.dir = Skeleton(sj.dir, o)], present |-> DryCopytreeMkdirs,    \* DEVIATION D2: makedirs for real
+                res |-> IF DryCopyRaises /\ ncopy > 0 THEN "TypeError" ELSE "ok",                     \* D1: the first file that is copied
+                fn |-> "", keys |-> {}, cons |-> {}, n |-> 0]
 
 SchemaOf(ids, sps) == [k \in UNION {DOMAIN sps[i] : i \in ids} |-> {sps[i][k] : i \in {x \in ids : k \in DOMAIN sps[x]}}]
 SchemaConflict(src, dst, o) == LET a == SchemaOf(DOMAIN src.jobs, o.sps)  b == SchemaOf(DOMAIN dst.jobs, o.sps)
@@ -222,22 +241,65 @@ ProjFold(seq, src, acc, o) ==
   IN IF seq = <<>> THEN acc
      ELSE [dst |-> [acc.dst EXCEPT !.jobs = [j \in (DOMAIN acc.dst.jobs) \cup put |-> IF j \in put THEN st(j).job ELSE acc.dst.jobs[j]]],
            res |-> st(seq[last]).res, fn |-> st(seq[last]).fn, keys |-> st(seq[last]).keys,
-           cons |-> acc.cons \cup UNION {{<<j>> \o p : p \in st(j).cons} : j \in done}]
+           cons |-> acc.cons \cup UNION {{<<j>> \o p : p \in st(j).cons} : j \in done},
+           sk |-> acc.sk \cup UNION {st(j).keys : j \in done}, n |-> acc.n + SumSet2(done, LAMBDA j : st(j).n)]
 \* the synchronisation: post-state of the destination and the result; jobs in listing order o.order (sequential)
 SyncFn(src, dst, o) ==
-  LET base == [dst |-> dst, res |-> "ok", fn |-> "", keys |-> {}, cons |-> {}] IN
+  LET base == [dst |-> dst, res |-> "ok", fn |-> "", keys |-> {}, cons |-> {}, sk |-> {}, n |-> 0] IN
   IF ProjLevel(o)
   THEN IF o.checkSchema /\ SchemaConflict(src, dst, o) THEN [base EXCEPT !.res = "SchemaSyncConflict"]
        ELSE LET pm == IF o.docSync \in {"nosync", "copy"} THEN [doc |-> dst.pdoc, res |-> "ok", keys |-> {}]
                       ELSE DocMerge(src.pdoc, dst.pdoc, o, dst.pbak)
-                b1 == [base EXCEPT !.dst = [dst EXCEPT !.pdoc = pm.doc], !.res = pm.res, !.keys = pm.keys]
+                b1 == [base EXCEPT !.dst = [dst EXCEPT !.pdoc = pm.doc], !.res = pm.res, !.keys = pm.keys, !.sk = pm.keys]
             IN IF pm.res # "ok" THEN b1
                ELSE ProjFold(SelectSeq(o.order, LAMBDA j : j \in Selected(src, o)), src, b1, o)
   ELSE IF o.jid \notin DOMAIN src.jobs THEN base                                    \* "nothing to be done if src is not initialized"
        ELSE LET ex == o.jid \in DOMAIN dst.jobs
                 st == JobStep(src.jobs[o.jid], IF ex THEN dst.jobs[o.jid] ELSE NoJob, ex, o, o.deep)
             IN [dst |-> PutJob(dst, o.jid, st), res |-> st.res, fn |-> st.fn, keys |-> st.keys,
-                cons |-> {<<o.jid>> \o p : p \in st.cons}]
+                cons |-> {<<o.jid>> \o p : p \in st.cons}, sk |-> st.keys, n |-> st.n]
+
+---------------------------------------------------------------------------
+(* 1d. THE COMMAND LINE FRONT END  `signac sync <source> [destination] [flags]`  (main_sync in signac/__main__.py).
+   Every command is its own process over the on-disk state; it is the COMPOSITION "translate the flags into the arguments of
+   destination.sync(source, ...)" ; SyncFn - so the library front and the command front cannot drift apart.
+   cmd = [strategy ("none" | "never" | "always" | "update": -s), viaU (-u instead of -s update), bad (argument combinations main_sync
+          refuses: "u+s" -u with -s, "t-no-p" -t without -p, "two-keys" more than one of -k / --all-keys / --no-keys),
+          keyMode ("default" | "all" --all-keys | "none" --no-keys | "regex" -k), keysel (the key names the regex matches),
+          recursive -r, archive -a (= -rltpog), perms -p, times -t, exclude [on, names, sp, doc] (-x PATTERN; -x alone = ".*"),
+          deep (-I / --ignore-times), sizeOnly, roundTimes, dryRun -n, merge -m, force --force, parallel, sel [kind, ids, fk, fv]
+          (-j IDS | -f KEY VALUE), stats (--stats --json), destArg (destination given explicitly), order, nord, kord, sps]
+   What the command reports: exit status 0 / 1, on stderr the message class (schema / document / file conflict with its payload,
+   "Error: ..." for everything else, "Skipped key(s): ..." and "Done." on success), on stdout the transfer statistics.
+   Not modelled (no observable effect on this universe, stated as assumption): -l links, -p perms, -o owner, -g group; --round-times
+   equals the default comparison because all model times are whole seconds. *)
+IsCli == MODE \in {"cligen", "clifile"}
+BadArgs(cmd) == cmd.bad # "none"
+SpMatch(sp, k, v) == k \in DOMAIN sp /\ sp[k] = v
+\* -f: "Only synchronize jobs matching the filter" = the SOURCE jobs matching it.  DEVIATION D9: main_sync asks get_project(),
+\* i.e. the project of the working directory (the destination), for the matching ids - jobs that exist only in the source never match.
+CliSel(cmd, src, dst, asCode) ==
+  CASE cmd.sel.kind = "none"  -> [on |-> FALSE, ids |-> {}]
+    [] cmd.sel.kind = "jobid" -> [on |-> TRUE, ids |-> cmd.sel.ids]
+    [] OTHER -> LET P == IF asCode /\ CliFilterOnCwd THEN dst ELSE src IN
+                [on |-> TRUE, ids |-> {j \in DOMAIN P.jobs : SpMatch(cmd.sps[j], cmd.sel.fk, cmd.sel.fv)}]
+\* the arguments of destination.sync(source, ...) the flags must become (asCode: as main_sync does it, else: as promised)
+CliOpts(cmd, src, dst, asCode) ==
+  [strategy |-> IF cmd.viaU THEN "update" ELSE cmd.strategy, custom |-> {},
+   docSync |-> CASE cmd.keyMode = "all" -> "bykeyall" [] cmd.keyMode = "none" -> "bykeyfn" [] cmd.keyMode = "regex" -> "bykeyre" [] OTHER -> "bykey",
+   keysel |-> IF cmd.keyMode = "regex" THEN cmd.keysel ELSE {},
+   recursive |-> cmd.recursive \/ cmd.archive, exclude |-> cmd.exclude, selection |-> CliSel(cmd, src, dst, asCode),
+   checkSchema |-> ~(cmd.merge \/ cmd.force), deep |-> cmd.deep, dryRun |-> cmd.dryRun, parallel |-> cmd.parallel,
+   entry |-> "Project.sync", jid |-> "", order |-> cmd.order, nord |-> cmd.nord, kord |-> cmd.kord, sps |-> cmd.sps,
+   sizeOnly |-> cmd.sizeOnly, times |-> (cmd.times \/ cmd.archive)]
+CliFn(src, dst, cmd, asCode) ==
+  IF BadArgs(cmd) THEN [dst |-> dst, res |-> "ValueError", fn |-> "", keys |-> {}, cons |-> {}, sk |-> {}, n |-> 0]   \* refused before anything is opened
+  ELSE SyncFn(src, dst, CliOpts(cmd, src, dst, asCode))
+\* the message classes of the command line
+ResName(r) == IF ~IsCli \/ r \in {"ok", "SchemaSyncConflict", "DocumentSyncConflict", "FileSyncConflict"} THEN r ELSE "Error"
+\* the case as the code runs it
+Run(c) == IF IsCli THEN CliFn(c.src, c.dst, c.cmd, TRUE) ELSE SyncFn(c.src, c.dst, c.o)
+CodeOpts(c) == IF IsCli THEN CliOpts(c.cmd, c.src, c.dst, TRUE) ELSE c.o
 
 ---------------------------------------------------------------------------
 (* 2. REQUIREMENTS (C13, C14, C15), independent of SyncFn.
@@ -273,7 +335,7 @@ MissingFiles(x) ==
              /\ ~ExclPath(f.p, x.o)
              /\ ~FAt(JobOf(x.dst, j).dir, f.p).ex /\ ~Blocked(JobOf(x.dst, j).dir, f.p)
              /\ (Reach(f.p, x.o) \/ NewJob(x, j))
-             /\ ~(LET g == FAt(JobOf(x.post, j).dir, f.p) IN g.ex /\ g.r.data = f.r.data)}} : j \in SelX(x)}
+             /\ ~(LET g == FAt(JobOf(x.post, j).dir, f.p) IN g.ex /\ g.r.data = f.r.data)}} : j \in SelX(x) \cap DOMAIN x.post.jobs}      \* (a selected job missing altogether: Superset)
 ReqFilesArrive(x) == IsOk(x) => MissingFiles(x) = {}
 RECURSIVE KeysKept(_, _, _, _)
 KeysKept(s, d, pv, nested) ==
@@ -311,12 +373,12 @@ PostF(x, b) == FAt(EffDir(JobOf(x.post, b.j), x.o), b.p)
 Kept(x, b)  == PostF(x, b) = [ex |-> TRUE, r |-> b.d]
 Written(x, b) == PostF(x, b).ex /\ PostF(x, b).r.data = b.s.data
 ReqOverwriteIffStrategy(x) == IsOk(x) =>
-  \A b \in Cand(x) : ~Same(b.s, b.d, x.o.deep) =>                                      \* R-shallow
+  \A b \in Cand(x) : ~SameO(b.s, b.d, x.o.deep, x.o) =>                                      \* R-shallow
        IF Verdict(b.s, b.d, b.p, x.o) THEN Written(x, b) ELSE Kept(x, b)
 ReqConflictLeavesFile(x) == ~x.o.dryRun =>
   /\ x.o.strategy = "none" => \A b \in BothFiles(x) : b.s.data # b.d.data => Kept(x, b)
-  /\ (x.o.strategy = "none" /\ x.res = "ok") => \A b \in Cand(x) : Same(b.s, b.d, x.o.deep)
-  /\ x.res = "FileSyncConflict" => x.o.strategy = "none" /\ \E b \in Cand(x) : ~Same(b.s, b.d, x.o.deep) /\ Last(b.p) = x.fn
+  /\ (x.o.strategy = "none" /\ x.res = "ok") => \A b \in Cand(x) : SameO(b.s, b.d, x.o.deep, x.o)
+  /\ x.res = "FileSyncConflict" => x.o.strategy = "none" /\ \E b \in Cand(x) : ~SameO(b.s, b.d, x.o.deep, x.o) /\ Last(b.p) = x.fn
 \* documents the sync merges: [w, s, d, p]
 DocLocs(x) ==
   (IF ProjLevel(x.o) /\ x.o.docSync # "copy" THEN {[w |-> "project", s |-> x.src.pdoc, d |-> x.dst.pdoc, p |-> x.post.pdoc]} ELSE {})
@@ -358,11 +420,12 @@ ParResOf(src, dst, o) ==
   \cup (IF o.docSync = "bykey" /\ \E j \in sel \cap DOMAIN dst.jobs : ByKey(src.jobs[j].doc.m, dst.jobs[j].doc.m, "", o, FALSE).skipped # {}
         THEN {"DocumentSyncConflict"} ELSE {})
 \* "completes (or reports the conflict a real run would)"
-RealResSet(x) == LET o2 == [x.o EXCEPT !.dryRun = FALSE]  r == SyncFn(x.src, x.dst, o2).res IN
+RealResSet(x) == LET o2 == [x.o EXCEPT !.dryRun = FALSE]
+                     r == IF IsCli /\ BadArgs(x.cmd) THEN "ValueError" ELSE SyncFn(x.src, x.dst, o2).res IN
   {r} \cup (IF ProjLevel(o2) /\ o2.parallel # "no" /\ r # "ok" THEN ParResOf(x.src, x.dst, o2) ELSE {})
 \* a document file may be REWRITTEN with identical content (a failed item assignment on a synced list saves on exit): not a change
 NoDmt(P) == [P EXCEPT !.jobs = [j \in DOMAIN P.jobs |-> [P.jobs[j] EXCEPT !.dmt = 0]]]
-ReqDryRunFrame(x) == x.o.dryRun => x.rawSame /\ x.srcSame /\ NoDmt(x.post) = NoDmt(x.dst) /\ x.res \in RealResSet(x)
+ReqDryRunFrame(x) == x.o.dryRun => x.rawSame /\ x.srcSame /\ NoDmt(x.post) = NoDmt(x.dst) /\ x.res \in {ResName(r) : r \in RealResSet(x)}
 ReqDeepByContent(x) == (x.o.deep /\ ~x.o.dryRun) =>
   /\ x.res = "ok" => \A b \in Cand(x) : b.s.data # b.d.data =>
         x.o.strategy # "none" /\ IF Verdict(b.s, b.d, b.p, x.o) THEN Written(x, b) ELSE Kept(x, b)
@@ -380,10 +443,15 @@ ReqOrderConfluent(x) == x.o.parallel # "no" =>
   /\ (x.res = "ok") = (x.seqRes = "ok")
   /\ x.res = "ok" => NoTimeProj(x.post) = NoTimeProj(x.seqPost)
 
-ReqNames == CASE PROP = "C13" -> {"Superset", "FilesArrive", "DstOnlyUntouched", "SrcUntouched", "Idempotent", "NothingElse"}
+\* command level: a refused or failed synchronisation exits with status 1, a completed one with 0
+ReqCliExit(x) == x.exit = IF x.res = "ok" THEN 0 ELSE 1
+\* command level, "never silent": a conflicting document key that is not overwritten is reported ("Skipped key(s): ...")
+ReqCliNeverSilent(x) == IsOk(x) => \A L \in DocLocs(x) : {k \in Confl(L.s.m, L.d.m, "") : ~KeySel(k, x.o)} \subseteq x.skipped
+LibReqNames == CASE PROP = "C13" -> {"Superset", "FilesArrive", "DstOnlyUntouched", "SrcUntouched", "Idempotent", "NothingElse"}
               [] PROP = "C14" -> {"OverwriteIffStrategy", "ConflictLeavesFile", "DocOverwriteIffKeyStrategy", "DocRollbackExact"}
               [] PROP = "C15" -> {"DryRunFrame", "DeepByContent", "ExcludeFrame", "SelectionFrame", "OrderConfluent"}
-ReqVal(n, x) == CASE n = "Superset" -> ReqSuperset(x) [] n = "FilesArrive" -> ReqFilesArrive(x)
+ReqNames == IF ~IsCli THEN LibReqNames ELSE LibReqNames \cup {"CliExit"} \cup (IF PROP = "C14" THEN {"CliNeverSilent"} ELSE {})
+ReqVal(n, x) == CASE n = "CliExit" -> ReqCliExit(x) [] n = "CliNeverSilent" -> ReqCliNeverSilent(x) [] n = "Superset" -> ReqSuperset(x) [] n = "FilesArrive" -> ReqFilesArrive(x)
                   [] n = "DstOnlyUntouched" -> ReqDstOnlyUntouched(x) [] n = "SrcUntouched" -> ReqSrcUntouched(x)
                   [] n = "Idempotent" -> ReqIdempotent(x) [] n = "NothingElse" -> ReqNothingElse(x) [] n = "OverwriteIffStrategy" -> ReqOverwriteIffStrategy(x)
                   [] n = "ConflictLeavesFile" -> ReqConflictLeavesFile(x) [] n = "DocOverwriteIffKeyStrategy" -> ReqDocOverwriteIffKeyStrategy(x)
@@ -399,7 +467,7 @@ Tags(n, x) ==
   CASE n = "FilesArrive" -> {IF \A m \in MissingFiles(x) : IgnPath(m.p) THEN "dircmp-ignored-name" ELSE "file-missing:" \o Level(x)}
     [] n = "DryRunFrame" ->
          LET js == (DOMAIN x.post.jobs) \cup (DOMAIN x.dst.jobs)
-             t1 == IF x.res \notin RealResSet(x) THEN {"raises-" \o x.res} ELSE {}
+             t1 == IF x.res \notin {ResName(r) : r \in RealResSet(x)} THEN {"raises-" \o x.res} ELSE {}
              t2 == IF PDirs(x.post) # PDirs(x.dst) THEN {"directory-created"} ELSE {}
              \* DEVIATION D3 only reaches keys INSIDE mappings that exist on both sides; anything else is a different defect
              nestedOnly(d, q) == q.t = "m" /\ DOMAIN q.m = DOMAIN d.m /\ \A k \in DOMAIN d.m : q.m[k] = d.m[k] \/ (q.m[k].t = "m" /\ d.m[k].t = "m")
@@ -423,14 +491,21 @@ Tags(n, x) ==
          {IF x.dst.pbak \/ \E j \in DOMAIN x.dst.jobs : BAKFN \in DOMAIN x.dst.jobs[j].dir.f THEN "stale-backup:" \o Level(x) ELSE x.o.docSync \o ":" \o Level(x)}
     [] n = "NothingElse" -> {IF SelX(x) = {} THEN "nothing-selected" ELSE "unselected-job-touched"}
     [] n = "OrderConfluent" -> {x.o.parallel}
+    [] n = "Idempotent" ->
+         {IF \E j \in DOMAIN x.post.jobs : ~x.post.jobs[j].sp THEN "cloned-job-without-state-point" ELSE Level(x)}
+    [] n = "Superset" ->
+         {IF \E j \in SelX(x) : j \in DOMAIN x.post.jobs /\ ~x.post.jobs[j].sp THEN "cloned-job-without-state-point"
+          ELSE IF IsCli /\ x.cmd.sel.kind = "filter" THEN "filter-not-applied-to-source" ELSE Level(x)}
     [] OTHER -> {Level(x)}
 
 ---------------------------------------------------------------------------
 (* 3a. SyncFn's own outcome as an x-record, and conformance of a recorded real execution *)
-MX(c) == LET R == SyncFn(c.src, c.dst, c.o)  R2 == SyncFn(c.src, R.dst, c.o) IN
-  [src |-> c.src, dst |-> c.dst, o |-> c.o, post |-> R.dst, res |-> R.res, fn |-> R.fn, keys |-> R.keys, cons |-> R.cons,
-   post2 |-> R2.dst, res2 |-> R2.res, srcSame |-> TRUE, srcAfter |-> c.src, rawSame |-> (R.dst = c.dst),
-   seqPost |-> R.dst, seqRes |-> R.res]
+NoCmd == [bad |-> "none", stats |-> FALSE, sel |-> [kind |-> "none"]]
+MX(c) == LET R == Run(c)  R2 == Run([c EXCEPT !.dst = R.dst]) IN
+  [src |-> c.src, dst |-> c.dst, o |-> c.o, cmd |-> IF IsCli THEN c.cmd ELSE NoCmd, post |-> R.dst, res |-> ResName(R.res), fn |-> R.fn,
+   keys |-> R.keys, cons |-> R.cons, post2 |-> R2.dst, res2 |-> ResName(R2.res), srcSame |-> TRUE, srcAfter |-> c.src,
+   rawSame |-> (R.dst = c.dst), seqPost |-> R.dst, seqRes |-> ResName(R.res),
+   exit |-> IF R.res = "ok" THEN 0 ELSE 1, skipped |-> R.sk, nstat |-> R.n]
 \* deviations that excuse a requirement on the MODEL side (all FALSE once the proposed fixes are applied)
 UsesIgnored(c) == \E j \in DOMAIN c.src.jobs : \E f \in AllFiles(c.src.jobs[j].dir, <<>>) : IgnPath(f.p)
 Excused(c) ==
@@ -438,6 +513,8 @@ Excused(c) ==
   \cup (IF ProjDeepDropped /\ ProjLevel(c.o) /\ c.o.deep THEN {"DeepByContent"} ELSE {})
   \cup (IF CopytreeIgnoresExclude /\ c.o.exclude.on THEN {"ExcludeFrame"} ELSE {})
   \cup (IF DircmpIgnoreList /\ UsesIgnored(c) THEN {"FilesArrive"} ELSE {})
+  \cup (IF CloneExcludeHitsSpecial /\ ExSp(c.o) THEN {"Superset", "Idempotent"} ELSE {})   \* (the repeat meets a directory without state point)
+  \cup (IF CliFilterOnCwd /\ IsCli /\ c.cmd.sel.kind = "filter" THEN {"Superset", "FilesArrive"} ELSE {})
 
 \* document mtimes are only meaningful when the document is treated as a file
 MaskJob(j, o)  == IF o.docSync = "copy" THEN j ELSE [j EXCEPT !.dmt = 0]
@@ -460,26 +537,34 @@ LooseOK(x, R) ==
             \/ inP /\ st.present /\ pj.dir = st.job.dir /\ pj.doc = dj.doc            \* files done, document rolled back (the ByKey object and
                                                                                       \* its skipped_keys are shared by all workers; the in-memory
                                                                                       \* rollback may leave an empty document file)
+            \/ /\ IsCli /\ inP /\ st.present                 \* the command exits while pool workers are mid-way (daemon threads are killed):
+               /\ {f.p : f \in AllFiles(pj.dir, <<>>)} \subseteq {f.p : f \in AllFiles(dj.dir, <<>>) \cup AllFiles(st.job.dir, <<>>)}   \* any part of the
+               /\ {f.p : f \in AllFiles(dj.dir, <<>>)} \subseteq {f.p : f \in AllFiles(pj.dir, <<>>)}       \* job's step, a file possibly half-written
+               /\ AllDirs(pj.dir, <<>>) \subseteq AllDirs(dj.dir, <<>>) \cup AllDirs(st.job.dir, <<>>)
             \/ /\ x.o.dryRun /\ inP                                                   \* dry run: no file content changes, directories may appear
                /\ AllFiles(pj.dir, <<>>) = AllFiles(dj.dir, <<>>)
                /\ AllDirs(dj.dir, <<>>) \subseteq AllDirs(pj.dir, <<>>)
                /\ AllDirs(pj.dir, <<>>) \subseteq AllDirs(dj.dir, <<>>) \cup AllDirs(x.src.jobs[j].dir, <<>>)
                /\ IF inD THEN DryNestedDocWrites \/ pj.doc = dj.doc ELSE DryCopytreeMkdirs /\ pj.doc = EmptyDoc
 \* first failing conjunct, "" when the recorded execution is a behaviour of the specification
-ConfWhy(x) == LET R == SyncFn(x.src, x.dst, x.o) IN
-  IF x.res # R.res /\ ~(Loose(x, R) /\ ProjLevel(x.o) /\ x.o.parallel # "no" /\ x.res \in ParResOf(x.src, x.dst, x.o)) THEN "result"
+ConfWhy(x0) == LET R == Run(x0)  x == [x0 EXCEPT !.o = CodeOpts(x0)] IN
+  IF x.res # ResName(R.res) /\ ~(Loose(x, R) /\ ProjLevel(x.o) /\ x.o.parallel # "no" /\ x.res \in {ResName(r) : r \in ParResOf(x.src, x.dst, x.o)}) THEN "result"
   ELSE IF Loose(x, R) THEN (IF LooseOK(x, R) THEN "" ELSE "partial-state")
   ELSE IF MaskProj(x.post, x.o) # MaskProj(R.dst, x.o) THEN "post-state"
   ELSE IF R.res = "FileSyncConflict" /\ x.fn # R.fn THEN "payload"
   ELSE IF R.res = "DocumentSyncConflict" /\ x.keys # R.keys THEN "payload"
   ELSE IF x.o.strategy = "custom" /\ R.res = "ok" /\ x.cons # R.cons THEN "consulted"
+  ELSE IF IsCli /\ x.exit # (IF R.res = "ok" THEN 0 ELSE 1) THEN "exit-status"
+  ELSE IF IsCli /\ R.res = "ok" /\ x.skipped # R.sk THEN "skipped-keys"
+  ELSE IF IsCli /\ x.cmd.stats /\ R.res = "ok" /\ ~x.o.dryRun /\ x.nstat # R.n THEN "statistics"
   ELSE ""
 
 ---------------------------------------------------------------------------
 (* 3b. generator: the bounded universe.  All randomness is one constant table RAW (evaluated once, reproducible under -seed) *)
 CONSTANT OFFSET       \* global index of this shard's first case (selects option rows)
-NR == 80
-RAW == IF MODE = "file" THEN <<>> ELSE [i \in 1..NCASE |-> [k \in 1..NR |-> RandomElement(0..1048575)]]
+NR == 110
+IsFileMode == MODE \in {"file", "clifile"}
+RAW == IF IsFileMode THEN <<>> ELSE [i \in 1..NCASE |-> [k \in 1..NR |-> RandomElement(0..1048575)]]
 Ids == <<"sp1", "sp2", "sp3">>
 SPTAB == [sp1 |-> [a |-> "1"], sp2 |-> [a |-> "2"], sp3 |-> [b |-> "1"]]
 NORD == <<"f", "g", "s", DOCFN, BAKFN, "tags">>       \* sorted() order of every name of the universe
@@ -542,14 +627,14 @@ KeySelSeq == <<{"k1"}, {"n", "n.k1"}, {"n.k1", "k2"}, {"k2", "n"}, {"n.k2"}>>
 AllStrat == {"none", "always", "never", "update", "custom"}
 AllDoc   == {"bykey", "bykeyfn", "bykeyre", "update", "nosync", "copy"}
 AllEntry == {"Project.sync", "sync_projects", "Job.sync", "sync_jobs"}
-OptDom == CASE PROP = "C13" -> [strategy |-> AllStrat, docSync |-> AllDoc, recursive |-> BOOLEAN, exclude |-> {"off", "f", "g"},
+OptDom == CASE PROP = "C13" -> [strategy |-> AllStrat, docSync |-> AllDoc, recursive |-> BOOLEAN, exclude |-> {"off", "f", "g", "all"},
                                 selection |-> {"off", "none", "ghost", "sp1", "sp13", "sp2"}, checkSchema |-> BOOLEAN, deep |-> {FALSE},
                                 dryRun |-> {FALSE}, parallel |-> {"no"}, entry |-> AllEntry]
             [] PROP = "C14" -> [strategy |-> AllStrat, docSync |-> AllDoc, recursive |-> BOOLEAN, exclude |-> {"off", "g"},
                                 selection |-> {"off", "sp13"}, checkSchema |-> {FALSE}, deep |-> {FALSE},
                                 dryRun |-> {FALSE}, parallel |-> {"no"}, entry |-> AllEntry]
             [] PROP = "C15" -> [strategy |-> AllStrat, docSync |-> {"bykey", "bykeyfn", "update", "nosync", "copy"}, recursive |-> BOOLEAN,
-                                exclude |-> {"off", "f", "g"}, selection |-> {"off", "none", "ghost", "sp1", "sp13", "sp2"}, checkSchema |-> {FALSE},
+                                exclude |-> {"off", "f", "g", "all"}, selection |-> {"off", "none", "ghost", "sp1", "sp13", "sp2"}, checkSchema |-> {FALSE},
                                 deep |-> BOOLEAN, dryRun |-> BOOLEAN, parallel |-> {"no", "two", "all"}, entry |-> AllEntry]
 Fields == <<"strategy", "docSync", "recursive", "exclude", "selection", "checkSchema", "deep", "dryRun", "parallel", "entry">>
 FieldSet == ToSet(Fields)
@@ -558,17 +643,18 @@ FullRows == [strategy : OptDom.strategy, docSync : OptDom.docSync, recursive : O
              parallel : OptDom.parallel, entry : OptDom.entry]
 PairRows == UNION {UNION {{[f \in FieldSet |-> IF f = Fields[i] THEN a ELSE IF f = Fields[j] THEN b ELSE RandomElement(OptDom[f])]
                               : a \in OptDom[Fields[i]], b \in OptDom[Fields[j]]} : j \in (i + 1)..Len(Fields)} : i \in 1..Len(Fields)}
-OptSeq == IF MODE = "file" THEN <<>> ELSE SetToSeq(IF FULLOPT THEN FullRows ELSE PairRows)
+OptSeq == IF IsFileMode THEN <<>> ELSE SetToSeq(IF FULLOPT THEN FullRows ELSE PairRows)
 PairwiseCovered == \A i \in 1..Len(Fields) : \A j \in (i + 1)..Len(Fields) : \A a \in OptDom[Fields[i]] : \A b \in OptDom[Fields[j]] :
                       \E k \in 1..Len(OptSeq) : OptSeq[k][Fields[i]] = a /\ OptSeq[k][Fields[j]] = b
-ASSUME MODE = "file" \/ PairwiseCovered
+ASSUME IsFileMode \/ PairwiseCovered
 MkOpt(row, v, src, dst) ==
   LET both == (DOMAIN src.jobs) \cap (DOMAIN dst.jobs)
       pool == IF both # {} /\ v[60] % 4 > 0 THEN SetToSeq(both) ELSE IF DOMAIN src.jobs # {} /\ v[60] % 8 > 0 THEN SetToSeq(DOMAIN src.jobs) ELSE Ids
   IN [strategy |-> row.strategy, custom |-> IF row.strategy = "custom" THEN CustomSeq[(v[61] % Len(CustomSeq)) + 1] ELSE {},
       docSync |-> row.docSync, keysel |-> IF row.docSync \in {"bykeyfn", "bykeyre"} THEN KeySelSeq[(v[62] % Len(KeySelSeq)) + 1] ELSE {},
       recursive |-> row.recursive,
-      exclude |-> [on |-> row.exclude # "off", names |-> IF row.exclude = "off" THEN {} ELSE {row.exclude}],
+      exclude |-> IF row.exclude = "all" THEN [on |-> TRUE, names |-> ToSet(NORD), sp |-> TRUE, doc |-> TRUE]      \* the pattern ".*"
+                  ELSE [on |-> row.exclude # "off", names |-> IF row.exclude = "off" THEN {} ELSE {row.exclude}, sp |-> FALSE, doc |-> FALSE],
       selection |-> [on |-> row.selection # "off",
                      ids |-> CASE row.selection = "sp1" -> {"sp1"} [] row.selection = "sp13" -> {"sp1", "sp3"}
                                [] row.selection = "sp2" -> {"sp2"}
@@ -576,13 +662,11 @@ MkOpt(row, v, src, dst) ==
                                [] OTHER -> {}],                             \* "none": the empty selection
       checkSchema |-> row.checkSchema, deep |-> row.deep, dryRun |-> row.dryRun, parallel |-> row.parallel, entry |-> row.entry,
       jid |-> pool[(v[63] % Len(pool)) + 1], order |-> PermSeq[(v[64] % Len(PermSeq)) + 1], nord |-> NORD, kord |-> KORD, sps |-> SPTAB]
-GenCase(i) ==
-  LET v == RAW[i]
-      \* gen: rows in turn (every row is used); steps: a random row per case
-      row == IF MODE = "steps" THEN OptSeq[(v[71] % Len(OptSeq)) + 1] ELSE OptSeq[((OFFSET + i - 1) % Len(OptSeq)) + 1]
-      \* C13 wants syncs that return, C14 wants conflicts, C15 both
+\* a (source project, destination project) pair from the random numbers v
+GenPair(v) ==
+  LET \* C13 wants syncs that return, C14 wants conflicts, C15 both
       compat == CASE PROP = "C13" -> v[1] % 4 > 0 [] PROP = "C14" -> v[1] % 3 = 0 [] OTHER -> v[1] % 2 = 0
-      tags == PROP = "C13" /\ v[2] % 4 = 0
+      tags == PROP = "C13" /\ v[2] % 4 = 0 /\ ~IsCli
       sids == SubsetAt(IF v[3] % 3 = 0 THEN 7 ELSE (v[3] \div 3) % 8)
       dids == IF v[4] % 2 = 0 THEN sids ELSE SubsetAt((v[4] \div 2) % 8)
       \* stale roll-back copies: frequent in the destination for C14 (DocRollbackExact), occasional elsewhere and in the source
@@ -590,12 +674,40 @@ GenCase(i) ==
       jp == [k \in 1..3 |-> JobPair(v, 5 + 18 * (k - 1), compat, tags, v[71 + 2 * k] % 15 = 0, v[72 + 2 * k] % bakmod = 0)]          \* v[6..59]
       idx(j) == CHOOSE k \in 1..3 : Ids[k] = j
       pa == KVal(v[65])  pb == KVal(v[66])  pn == NVal(v[67] % 9)
-      src == [jobs |-> [j \in sids |-> jp[idx(j)].s], pdoc |-> MkDoc(pa, pb, pn), pbak |-> FALSE]
-      dst == [jobs |-> [j \in dids |-> jp[idx(j)].d],
-              pdoc |-> MkDoc(RelVal(pa, KVal(v[68]), v[68] \div 8, compat), RelVal(pb, KVal(v[69]), v[69] \div 8, compat),
-                             RelVal(pn, NVal(v[70] % 9), v[70] \div 8, compat)),
-              pbak |-> v[79] % bakmod = 0]
-  IN [src |-> src, dst |-> dst, o |-> MkOpt(row, v, src, dst)]
+  IN [src |-> [jobs |-> [j \in sids |-> jp[idx(j)].s], pdoc |-> MkDoc(pa, pb, pn), pbak |-> FALSE],
+      dst |-> [jobs |-> [j \in dids |-> jp[idx(j)].d],
+               pdoc |-> MkDoc(RelVal(pa, KVal(v[68]), v[68] \div 8, compat), RelVal(pb, KVal(v[69]), v[69] \div 8, compat),
+                              RelVal(pn, NVal(v[70] % 9), v[70] \div 8, compat)),
+               pbak |-> v[79] % bakmod = 0]]
+\* a command line: every flag drawn independently (v[81..100]); dry-run / deep / parallel vary for C15 only, as at library level
+GenCmd(v) ==
+  LET strat == <<"none", "never", "always", "update">>[(v[81] % 4) + 1]
+      perms == v[87] % 3 = 0
+      exc == v[89] % 6
+  IN [strategy |-> strat, viaU |-> strat = "update" /\ v[82] % 2 = 0,
+      bad |-> IF v[83] % 20 = 0 THEN <<"u+s", "t-no-p", "two-keys">>[((v[83] \div 20) % 3) + 1] ELSE "none",
+      keyMode |-> <<"default", "all", "none", "regex">>[(v[84] % 4) + 1], keysel |-> KeySelSeq[(v[62] % Len(KeySelSeq)) + 1],
+      recursive |-> v[85] % 2 = 0, archive |-> v[86] % 6 = 0, perms |-> perms, times |-> perms /\ v[88] % 2 = 0,
+      exclude |-> CASE exc = 3 -> [on |-> TRUE, names |-> {"f"}, sp |-> FALSE, doc |-> FALSE]
+                    [] exc = 4 -> [on |-> TRUE, names |-> {"g"}, sp |-> FALSE, doc |-> FALSE]
+                    [] exc = 5 -> [on |-> TRUE, names |-> ToSet(NORD), sp |-> TRUE, doc |-> TRUE]          \* -x without a pattern: ".*"
+                    [] OTHER -> [on |-> FALSE, names |-> {}, sp |-> FALSE, doc |-> FALSE],
+      deep |-> PROP = "C15" /\ v[90] % 2 = 0, sizeOnly |-> PROP # "C13" /\ v[91] % 5 = 0, roundTimes |-> v[92] % 7 = 0,
+      dryRun |-> PROP = "C15" /\ v[93] % 3 = 0, merge |-> v[94] % 4 \in {1, 3}, force |-> v[94] % 4 = 2,
+      parallel |-> IF PROP = "C15" THEN <<"no", "two", "all">>[(v[95] % 3) + 1] ELSE "no",
+      sel |-> CASE v[96] % 4 = 2 -> [kind |-> "jobid", ids |-> <<{"sp1"}, {"sp1", "sp3"}, {"sp2"}, {"sp9"}>>[(v[97] % 4) + 1], fk |-> "", fv |-> ""]
+                [] v[96] % 4 = 3 -> [kind |-> "filter", ids |-> {}, fk |-> <<"a", "a", "b">>[(v[97] % 3) + 1], fv |-> <<"1", "2", "1">>[(v[97] % 3) + 1]]
+                [] OTHER -> [kind |-> "none", ids |-> {}, fk |-> "", fv |-> ""],
+      stats |-> v[98] % 3 = 0, destArg |-> v[99] % 2 = 0,
+      order |-> PermSeq[(v[64] % Len(PermSeq)) + 1], nord |-> NORD, kord |-> KORD, sps |-> SPTAB]
+GenCase(i) ==
+  LET v == RAW[i]
+      pr == GenPair(v)
+  IN IF IsCli
+     THEN LET cmd == GenCmd(v) IN [src |-> pr.src, dst |-> pr.dst, cmd |-> cmd, o |-> CliOpts(cmd, pr.src, pr.dst, FALSE)]
+     ELSE \* gen: option rows in turn (every row is used); steps: a random row per case
+          LET row == IF MODE = "steps" THEN OptSeq[(v[71] % Len(OptSeq)) + 1] ELSE OptSeq[((OFFSET + i - 1) % Len(OptSeq)) + 1]
+          IN [src |-> pr.src, dst |-> pr.dst, o |-> MkOpt(row, v, pr.src, pr.dst)]
 
 \* what a case exercises (vacuity guard and distinct-case counting in the harness)
 Features(c, x) ==
@@ -654,7 +766,7 @@ NoR == [viol |-> {}, excused |-> {}, feat |-> {}, res |-> "", why |-> "", tags |
    byte-identity of the raw source / destination snapshots; seqPost/seqRes the same case run with parallel=False.
    SYNC_OUT gets one verdict per record: why ("" = a behaviour of SyncFn, else the first failing conformance conjunct), the violated
    requirements of PROP with tags, and SyncFn's expectation when why # "". *)
-RecsIn == IF MODE = "file" THEN ndJsonDeserialize(IOEnv.SYNC_IN) ELSE <<>>
+RecsIn == IF IsFileMode THEN ndJsonDeserialize(IOEnv.SYNC_IN) ELSE <<>>
 \* ndJsonDeserialize yields records; rebuild every mapping as a function so that it compares with the specification's values
 RECURSIVE FixDir(_)
 FixDir(d) == [f |-> [n \in DOMAIN d.f |-> d.f[n]], d |-> [n \in DOMAIN d.d |-> FixDir(d.d[n])]]
@@ -662,15 +774,22 @@ RECURSIVE FixDV(_)
 FixDV(v) == [t |-> v.t, s |-> v.s, m |-> [k \in DOMAIN v.m |-> FixDV(v.m[k])]]
 FixJob(j) == [sp |-> j.sp, dir |-> FixDir(j.dir), doc |-> FixDV(j.doc), dex |-> j.dex, dmt |-> j.dmt]
 FixProj(P) == [jobs |-> [j \in DOMAIN P.jobs |-> FixJob(P.jobs[j])], pdoc |-> FixDV(P.pdoc), pbak |-> P.pbak]
-FixO(o) == [o EXCEPT !.custom = ToSet(o.custom), !.keysel = ToSet(o.keysel), !.exclude = [on |-> o.exclude.on, names |-> ToSet(o.exclude.names)],
+FixEx(e) == [on |-> e.on, names |-> ToSet(e.names), sp |-> Opt(e, "sp", FALSE), doc |-> Opt(e, "doc", FALSE)]
+FixSps(t) == [i \in DOMAIN t |-> [k \in DOMAIN t[i] |-> t[i][k]]]
+FixCmd(m) == [m EXCEPT !.keysel = ToSet(m.keysel), !.exclude = FixEx(m.exclude), !.sel = [m.sel EXCEPT !.ids = ToSet(m.sel.ids)], !.sps = FixSps(m.sps)]
+FixO(o) == [o EXCEPT !.custom = ToSet(o.custom), !.keysel = ToSet(o.keysel), !.exclude = FixEx(o.exclude),
                      !.selection = [on |-> o.selection.on, ids |-> ToSet(o.selection.ids)],
                      !.sps = [i \in DOMAIN o.sps |-> [k \in DOMAIN o.sps[i] |-> o.sps[i][k]]]]
-RecX(i) == LET q == RecsIn[i] IN
-  [src |-> FixProj(q.src), dst |-> FixProj(q.dst), o |-> FixO(q.o), post |-> FixProj(q.post), res |-> q.res, fn |-> q.fn,
-   keys |-> ToSet(q.keys), cons |-> ToSet(q.cons), post2 |-> FixProj(q.post2), res2 |-> q.res2, srcSame |-> q.srcSame,
-   srcAfter |-> FixProj(q.srcAfter), rawSame |-> q.rawSame, seqPost |-> FixProj(q.seqPost), seqRes |-> q.seqRes]
-CaseOf(i) == IF MODE = "file" THEN [src |-> RecX(i).src, dst |-> RecX(i).dst, o |-> RecX(i).o] ELSE GenCase(i)
-NC == IF MODE = "file" THEN Len(RecsIn) ELSE NCASE
+RecX(i) == LET q == RecsIn[i]
+               lib == [src |-> FixProj(q.src), dst |-> FixProj(q.dst), post |-> FixProj(q.post), res |-> q.res, fn |-> q.fn,
+                       keys |-> ToSet(q.keys), cons |-> ToSet(q.cons), post2 |-> FixProj(q.post2), res2 |-> q.res2, srcSame |-> q.srcSame,
+                       srcAfter |-> FixProj(q.srcAfter), rawSame |-> q.rawSame, seqPost |-> FixProj(q.seqPost), seqRes |-> q.seqRes]
+           IN IF MODE = "clifile"
+              THEN LET cmd == FixCmd(q.cmd) IN
+                   lib @@ [cmd |-> cmd, o |-> CliOpts(cmd, lib.src, lib.dst, FALSE), exit |-> q.exit, skipped |-> ToSet(q.skipped), nstat |-> q.nstat]
+              ELSE lib @@ [o |-> FixO(q.o), cmd |-> NoCmd]
+CaseOf(i) == IF IsFileMode THEN RecX(i) ELSE GenCase(i)
+NC == IF IsFileMode THEN Len(RecsIn) ELSE NCASE
 
 EvalGen(i) == LET cs == GenCase(i)  x == MX(cs)  vs == Violated(x) IN
   [viol |-> vs, excused |-> Excused(cs), feat |-> Features(cs, x), res |-> x.res, why |-> "",
@@ -688,7 +807,7 @@ Init == /\ c \in 1..NC
                 /\ ProjLevel(cs.o)
                 /\ r = NoR /\ cur = s0.dst /\ sres = s0.res
                 /\ pend = IF s0.res = "ok" THEN Selected(cs.src, cs.o) ELSE {}
-           ELSE /\ r = IF MODE = "file" THEN EvalRec(c) ELSE EvalGen(c)
+           ELSE /\ r = IF IsFileMode THEN EvalRec(c) ELSE EvalGen(c)
                 /\ pend = {} /\ cur = NoProj /\ sres = ""
 \* one worker thread takes one job: any pending job, in any order (the model of parallel=True / parallel=N)
 JobStepAct == \E j \in pend :
@@ -728,14 +847,14 @@ DebugAlias == LET cs == CaseOf(c)  x == MX(cs) IN
 
 Export ==
   /\ TLCGet("level") >= 0
-  /\ IF MODE = "gen"
+  /\ IF MODE \in {"gen", "cligen"}
      THEN ndJsonSerialize(IOEnv.SYNC_OUT, [i \in 1..NCASE |-> LET cs == GenCase(i) e == EvalGen(i) IN
-              [id |-> OFFSET + i, src |-> cs.src, dst |-> cs.dst, o |-> cs.o,
+              [id |-> OFFSET + i, src |-> cs.src, dst |-> cs.dst, o |-> cs.o, cmd |-> IF IsCli THEN cs.cmd ELSE NoCmd,
                pred |-> [res |-> e.res, viol |-> e.viol, excused |-> e.excused, tags |-> e.tags], feat |-> e.feat]])
-     ELSE IF MODE = "file"
+     ELSE IF IsFileMode
      THEN ndJsonSerialize(IOEnv.SYNC_OUT, [i \in 1..NC |-> LET e == EvalRec(i) IN
               [id |-> RecsIn[i].id, why |-> e.why, viol |-> e.viol, tags |-> e.tags,
                exp |-> IF e.why = "" THEN [res |-> "", fn |-> "", keys |-> {}, dst |-> NoProj]
-                       ELSE LET R == SyncFn(RecX(i).src, RecX(i).dst, RecX(i).o) IN [res |-> R.res, fn |-> R.fn, keys |-> R.keys, dst |-> R.dst]]])
+                       ELSE LET R == Run(RecX(i)) IN [res |-> ResName(R.res), fn |-> R.fn, keys |-> R.keys, dst |-> R.dst]]])
      ELSE TRUE
 =============================================================================
